@@ -612,6 +612,9 @@ class FxTr:
                 names = sorted(binds, key=lambda n: int(n[1:]))
                 if len(names) != len(tys):
                     raise Unsupported(f"effect pattern of {con}: {len(names)} holes, {len(tys)} types")
+                for n in names:                          # a draw inside an argument is consumed before the effect
+                    if self.contains_draw(binds[n]):
+                        binds[n], env = self.hoist_draws(binds[n], env)
                 args = [self.hole(binds[n], ty, env) for n, ty in zip(names, tys)]
                 env2 = self.copy(env)
                 env2["fx"][1].append(con if not args else "(" + " ".join([con] + args) + ")")
